@@ -45,6 +45,7 @@ limitations under the License.
 #include <photon/common/alog-functionptr.h>
 #include <photon/thread/thread-key.h>
 #include <photon/thread/arch.h>
+#include <photon/common/verif-hooks.h>
 
 /* notes on the scheduler:
 
@@ -173,6 +174,15 @@ namespace photon
         void* _ptr;
     };
 
+#if defined(PHOTON_VERIF) && defined(__SANITIZE_THREAD__)
+#define PHOTON_VERIF_TSAN
+    extern "C" {
+    void* __tsan_get_current_fiber(void);
+    void* __tsan_create_fiber(unsigned flags);
+    void __tsan_destroy_fiber(void* fiber);
+    void __tsan_switch_to_fiber(void* fiber, unsigned flags);
+    }
+#endif
     struct thread_list;
     struct thread : public intrusive_list_node<thread> {
         volatile vcpu_t* vcpu;
@@ -208,6 +218,9 @@ namespace photon
         size_t stack_size;
 // offset 96B
         condition_variable cond;            /* used for join */
+#ifdef PHOTON_VERIF_TSAN
+        void* tsan_fiber = nullptr;
+#endif
 
         enum shift {
             joinable = 0,
@@ -294,6 +307,9 @@ namespace photon
         }
         void dispose() {
             assert(state == states::DONE);
+#ifdef PHOTON_VERIF_TSAN
+            if (tsan_fiber) { __tsan_destroy_fiber(tsan_fiber); tsan_fiber = nullptr; }
+#endif
             // `buf` and `stack_size` will always store on register
             // when calling deallocating.
             photon_thread_dealloc(buf, stack_size);
@@ -343,6 +359,11 @@ namespace photon
 #define ASAN_DIE_SWITCH(to)
 #endif
 
+#ifdef PHOTON_VERIF_TSAN
+#define TSAN_SWITCH(to) __tsan_switch_to_fiber((to)->tsan_fiber, 0)
+#else
+#define TSAN_SWITCH(to)
+#endif
     static void _asan_start() asm("_asan_start");
 
     __attribute__((used)) static void _asan_start() { ASAN_START(); }
@@ -390,6 +411,9 @@ namespace photon
             q.push_back(obj);
             obj->idx = q.size() - 1;
             up(obj->idx);
+#ifdef PHOTON_VERIF
+            verif_check(1);
+#endif
             return 0;
         }
 
@@ -406,6 +430,9 @@ namespace photon
             q.pop_back();
             down(0);
             ret->idx = -1;
+#ifdef PHOTON_VERIF
+            verif_check(2);
+#endif
             return ret;
         }
 
@@ -430,6 +457,10 @@ namespace photon
             q.pop_back();
             if (!up(id)) down(id);
             obj->idx = -1;
+#ifdef PHOTON_VERIF
+            VERIF_COV(C_SLEEPQ_POP_MIDDLE);
+            verif_check(3);
+#endif
             return 0;
         }
 
@@ -480,6 +511,35 @@ namespace photon
             if (ret) update_node(idx, tmp);
             return ret;
         }
+
+#ifdef PHOTON_VERIF
+        // invariant walker, armed by T_SLEEPQ_WALK (bit 0: structural)
+        uint32_t verif_mutations = 0;
+        void verif_check(uint32_t site)
+        {
+            auto mode = VERIF_TUNABLE(T_SLEEPQ_WALK);
+            if (likely(!(mode & 1))) return;
+            auto n = q.size();
+            if (n > 64 && (++verif_mutations & 15)) return;
+            VERIF_COV(C_SLEEPQ_WALK);
+            for (size_t i = 0; i < n; ++i) {
+                if (q[i]->idx != (int)i)
+                    VERIF_EVENT(E_SLEEPQ_BAD, 1 | (site << 8), i);
+                if (i && q[i]->ts_wakeup < q[(i - 1) >> 1]->ts_wakeup)
+                    VERIF_EVENT(E_SLEEPQ_BAD, 2 | (site << 8), i);
+            }
+        }
+        // bit 1: no expired SLEEPING thread may remain after a resume pass
+        // that started when `now` was `since` (only sound with one writer of now)
+        void verif_check_expired(uint64_t since)
+        {
+            auto mode = VERIF_TUNABLE(T_SLEEPQ_WALK);
+            if (likely(!(mode & 2))) return;
+            for (size_t i = 0; i < q.size(); ++i)
+                if (q[i]->state == states::SLEEPING && q[i]->ts_wakeup <= since)
+                    VERIF_EVENT(E_SLEEPQ_BAD, 3, i);
+        }
+#endif
     };
 
     // A special spinlock that distinguishes a foreground vCPU among
@@ -798,6 +858,7 @@ R"(
     inline void switch_context(thread* from, thread* to) {
         ASAN_SWITCH(to);
         prepare_switch(from, to);
+        TSAN_SWITCH(to);
         auto _t_ = to->stack.pointer_ref();
         register auto f asm("rsi") = from->stack.pointer_ref();
         register auto t asm("rdi") = _t_;
@@ -812,6 +873,7 @@ R"(
                                      void (*defer)(void*), void* arg) {
         ASAN_SWITCH(to);
         prepare_switch(from, to);
+        TSAN_SWITCH(to);
         auto _t_ = to->stack.pointer_ref();
         register auto f asm("rcx") = from->stack.pointer_ref();
         register auto t asm("rdx") = _t_;
@@ -862,6 +924,7 @@ R"(
     inline void switch_context(thread* from, thread* to) {
         ASAN_SWITCH(to);
         prepare_switch(from, to);
+        TSAN_SWITCH(to);
         auto _t_ = to->stack.pointer_ref();
         register auto f asm("rdx") = from->stack.pointer_ref();
         register auto t asm("rcx") = _t_;
@@ -878,6 +941,7 @@ R"(
                                      void (*defer)(void*), void* arg) {
         ASAN_SWITCH(to);
         prepare_switch(from, to);
+        TSAN_SWITCH(to);
         auto _t_ = to->stack.pointer_ref();
         register auto f asm("r9") = from->stack.pointer_ref();
         register auto t asm("r8") = _t_;
@@ -951,6 +1015,7 @@ R"(
     inline void switch_context(thread* from, thread* to) {
         ASAN_SWITCH(to);
         prepare_switch(from, to);
+        TSAN_SWITCH(to);
         auto _t_ = to->stack.pointer_ref();
         register auto f asm("x0") = from->stack.pointer_ref();
         register auto t asm("x1") = _t_;
@@ -971,6 +1036,7 @@ R"(
                                      void (*defer)(void*), void* arg) {
         ASAN_SWITCH(to);
         prepare_switch(from, to);
+        TSAN_SWITCH(to);
         auto _t_ = to->stack.pointer_ref();
         register auto f asm("x3") = from->stack.pointer_ref();
         register auto t asm("x2") = _t_;
@@ -1004,6 +1070,7 @@ R"(
         lock.lock();
         state = states::DONE;
         cond.notify_one();
+        VERIF_POINT(P_DIE_AFTER_NOTIFY);
         get_vcpu()->nthreads--;
         auto sw = AtomicRunQ().remove_current(states::DONE);
         assert(this == sw.from);
@@ -1019,6 +1086,7 @@ R"(
         }
         auto ref = sw.to->stack.pointer_ref();
         ASAN_DIE_SWITCH(sw.to);
+        TSAN_SWITCH(sw.to);
         _photon_switch_context_defer_die(arg, func, ref);
         __builtin_unreachable();
     }
@@ -1074,6 +1142,9 @@ R"(
         th->stack_size = stack_size;
         th->arg = arg;
         th->flags = flags;
+#ifdef PHOTON_VERIF_TSAN
+        th->tsan_fiber = __tsan_create_fiber(0);
+#endif
         auto sp = align_down(p - reserved_space, 64);
         th->stack.init((void*)sp, &_photon_thread_stub, th);
         AtomicRunQ arq(rq);
@@ -1264,6 +1335,9 @@ R"(
     int resume_threads_inlined(vcpu_t* vcpu, const RunQ& runq)
     {
         int count = 0;
+#ifdef PHOTON_VERIF
+        uint64_t verif_since = 0;
+#endif
         thread_list list;
         auto& standbyq = vcpu->standbyq;
         auto& sleepq = vcpu->sleepq;
@@ -1281,11 +1355,18 @@ R"(
             else goto insert_list;
         }
         if_update_now();
+#ifdef PHOTON_VERIF
+        verif_since = now;
+#endif
         do {
             auto th = sleepq.front();
             if (th->ts_wakeup > now) break;
+            VERIF_POINT(P_RESUME_BEFORE_LOCK);
             SCOPED_LOCK(th->lock);
             sleepq.pop_front();
+#ifdef PHOTON_VERIF
+            if (th->state != states::SLEEPING) VERIF_COV(C_RESUME_FOUND_STANDBY);
+#endif
             if (likely(th->state == states::SLEEPING)) {
                 th->dequeue_ready_atomic();
                 list.push_back(th);
@@ -1296,6 +1377,9 @@ R"(
                 standbyq.contains(th);
             }));
         } while(!sleepq.empty());
+#ifdef PHOTON_VERIF
+        sleepq.verif_check_expired(verif_since);
+#endif
         if (count) {
 insert_list:
             AtomicRunQ(runq).insert_list_before(list);
@@ -1422,6 +1506,7 @@ insert_list:
         if (unlikely(!rq.current))
             LOG_ERROR_RETURN(ENOSYS, -1, "Photon not initialized in this thread");
         if (unlikely(AtomicRunQ(rq).defer_to_new_thread())) {
+            VERIF_COV(C_DEFER_TO_NEW_THREAD);
             thread_create((thread_entry&)defer, defer_arg);
             return thread_usleep(timeout);
         }
@@ -1466,6 +1551,8 @@ insert_list:
         RunQ rq;
         if (unlikely(!rq.current || vcpu != rq.current->get_vcpu())) {
             th->dequeue_ready_atomic(states::STANDBY);
+            VERIF_POINT(P_PRELOCKED_INTERRUPT);
+            VERIF_COV(C_CROSS_VCPU_WAKE);
             vcpu->move_to_standbyq_atomic(th);
         } else {
             th->dequeue_ready_atomic();
@@ -1484,8 +1571,12 @@ insert_list:
                 th->error_number = error_number;
             return;
         }
+        VERIF_POINT(P_INTERRUPT_BEFORE_LOCK);
         SCOPED_LOCK(th->lock);
         state = th->state;
+#ifdef PHOTON_VERIF
+        if (state != states::SLEEPING) VERIF_COV(C_INTERRUPT_POSTLOCK_OUT);
+#endif
         if (unlikely(state != states::SLEEPING)) goto out;
 
         prelocked_thread_interrupt(th, error_number);
@@ -1525,10 +1616,12 @@ insert_list:
         T* x = *ppt;
         if (!x || x == end)
             return nullptr;
+        VERIF_POINT(P_WAITQ_RESUME);
         x->lock.lock();
         if (x == *ppt)
             return x;
         x->lock.unlock();
+        VERIF_COV(C_INDIRECT_LOCK_RETRY);
         goto again;
     }
     inline thread* indirect_lock(thread** ppt)
@@ -1547,8 +1640,10 @@ insert_list:
         if (!th->is_joinable())
             LOG_ERROR_RETURN(ENOSYS, nullptr, "join is not enabled for thread ", th);
 
+        VERIF_POINT(P_JOIN);
         th->lock.lock();
         while (th->state != states::DONE) {
+            VERIF_COV(C_JOIN_WAITED);
             th->cond.wait(th->lock);
         }
         auto retval = th->retval;
@@ -1778,14 +1873,19 @@ insert_list:
 
         if (timeout.expired()) {
             errno = ETIMEDOUT;
+            VERIF_COV(C_MUTEX_TIMEOUT_RET);
             splock.unlock();
             return -1;
         }
 
         int ret = thread_usleep_defer(timeout,
             (thread_list*)&q, &spinlock_unlock, &splock);
+        VERIF_POINT(P_MUTEX_LOCK_AFTER_WAKE);
         if (likely(ret < 0 && errno == -1)) {
             auto o = owner.load(std::memory_order_acquire);
+#ifdef PHOTON_VERIF
+            if (o != CURRENT) VERIF_COV(C_MUTEX_CONTEND_AGAIN);
+#endif
             if (unlikely(o != CURRENT)) { assert(_contending); goto again; }
         }
         return waitq_translate_errno(ret);
@@ -1799,8 +1899,12 @@ insert_list:
     }
     inline void do_mutex_unlock(mutex* m)
     {
+        VERIF_POINT(P_MUTEX_UNLOCK);
         SCOPED_LOCK(m->splock);
         ScopedLockHead h(m);
+#ifdef PHOTON_VERIF
+        if (h) VERIF_COV(C_MUTEX_HANDOFF);
+#endif
         m->owner.store(unlikely(m->_contending) ? nullptr : (thread*)h);
         if (h)
             prelocked_thread_interrupt(h, -1);
@@ -1894,11 +1998,13 @@ insert_list:
         DEFER(counter = 0);
         while (!try_subtract(count)) {
             int ret = waitq::wait_defer(timeout, spinlock_unlock, &splock);
+            VERIF_POINT(P_SEM_WAIT_AFTER_DEFER);
             splock.lock();  // assuming errno NOT changed
             if (unlikely(ret < 0)) {    // got interrupted
                 uint64_t cnt;
                 if (!m_ooo_resume && (cnt = m_count.load())) {
                     auto eno = errno;
+                    VERIF_COV(C_SEM_INTERRUPTED_RESUME);
                     try_resume(cnt);
                     errno = eno;
                 }
@@ -1927,6 +2033,7 @@ insert_list:
             SCOPED_LOCK(th->lock);
             auto& c = th->semaphore_count;
             if (c <= cnt) {
+                VERIF_COV(C_SEM_OOO_NONHEAD);
                 cnt -= c;
                 prelocked_thread_interrupt(th, -1);
             }
@@ -1958,6 +2065,7 @@ insert_list:
         uint64_t op = (mode == RLOCK) ? (1ULL << 63) : -1ULL;
         if (cvar.q.th || (op & state)) {
             do {
+                VERIF_COV(C_RWLOCK_WAIT);
                 int ret = cvar.wait(lock, timeout);
                 if (ret < 0)
                     return -1; // break by timeout or interrupt
@@ -1979,6 +2087,7 @@ insert_list:
             state --;
         else
             state ++;
+        VERIF_POINT(P_RWLOCK_UNLOCK);
         if (state == 0 && cvar.q.th) {
             if (cvar.q.th && (cvar.q.th->rwlock_mark & WLOCK)) {
                 cvar.notify_one();
@@ -2026,6 +2135,10 @@ insert_list:
                 // note that migrated threads are also inserted to standby q, but
                 // they are not in a sleeping q, so they are able to be stolen.
             } else {
+                VERIF_POINT(P_WS_SCAN);
+#ifdef PHOTON_VERIF
+                if (possibly_running) VERIF_COV(C_STEAL_RUNQ); else VERIF_COV(C_STEAL_STANDBYQ);
+#endif
                 auto next = th->remove_from_list();
                 stolen.push_back(th); count++;
                 th->vcpu->nthreads--;
@@ -2053,6 +2166,7 @@ insert_list:
             if (lk->try_lock() < 0)
                 break;  // busy -- leave it for the next scan (see ws_scan_q)
             DEFER(lk->unlock());
+            VERIF_COV(C_STEAL_STANDBYQ);
             q.pop_front();
             stolen.push_back(th);
             th->vcpu->nthreads--;
@@ -2189,6 +2303,8 @@ insert_list:
         auto vcpu = (vcpu_t*)vb;
         th->vcpu = vcpu;
         vcpu->nthreads++;
+        VERIF_POINT(P_MIGRATE);
+        VERIF_COV(C_MIGRATE);
         vcpu->move_to_standbyq_atomic(th);
         return 0;
     }
@@ -2245,6 +2361,9 @@ insert_list:
         th->vcpu = (vcpu_t*)ptr;
         th->state = states::RUNNING;
         th->init_main_thread_stack();
+#ifdef PHOTON_VERIF_TSAN
+        th->tsan_fiber = __tsan_get_current_fiber();
+#endif
         auto vcpu = new (ptr) vcpu_t(uint8_t(flags & FLAGS));
         vcpu->idle_worker = thread_create(&idler, nullptr);
         if (unlikely(!vcpu->idle_worker)) {
